@@ -101,10 +101,11 @@ type Model struct {
 	first, latest, base int64
 	working             map[string]string
 	dirty               bool
+	dead                map[int64]map[string]string // contents of deleted versions (only to recognise the zombie-version defect class)
 }
 
 func newModel() *Model {
-	return &Model{saved: map[int64]map[string]string{}, hashes: map[int64]string{}, working: map[string]string{}}
+	return &Model{saved: map[int64]map[string]string{}, hashes: map[int64]string{}, working: map[string]string{}, dead: map[int64]map[string]string{}}
 }
 
 func cp(m map[string]string) map[string]string {
@@ -483,6 +484,7 @@ func (e *Exec) step1(idx uint8) {
 			e.bad("delete-versions-error", "%v", err)
 		}
 		for v := m.first; v <= op.Arg; v++ {
+			m.dead[v] = m.saved[v]
 			delete(m.saved, v)
 			delete(m.hashes, v)
 		}
@@ -1214,6 +1216,7 @@ type explorer struct {
 	transitions int64
 	states      int64
 	depthDone   map[string]int
+	frontiers   map[string][]entry
 	census      map[string]int
 	censusMu    sync.Mutex
 }
@@ -1233,7 +1236,19 @@ func phase1(trace []uint8) (dig [32]byte, ntrans int64, bad bool) {
 				// single leaf that the next version still references stays present. Such states are not expanded.
 				for u := int64(1); u < e.m.first; u++ {
 					if _, err := e.tree.GetImmutable(u); err == nil {
-						r.Outcome("pruned:state-with-undeleted-deleted-version(see zombie-version finding)")
+						// exactly the known class? one-key version whose leaf (values are unique per key and version) is still
+						// part of the oldest surviving version
+						known := false
+						if d := e.m.dead[u]; len(d) == 1 {
+							for k, v := range d {
+								known = e.m.saved[e.m.first][k] == v
+							}
+						}
+						if !known {
+							report([]Viol{{Kind: "deleted-version-still-readable", Cfg: c.Name, Trace: traceString(trace), Detail: fmt.Sprintf("GetImmutable(%d) succeeds after DeleteVersionsTo", u)}})
+						} else {
+							r.Outcome("pruned:state-with-undeleted-deleted-version(see zombie-version finding)")
+						}
 						return dig, 1, true
 					}
 				}
@@ -1257,6 +1272,7 @@ func (x *explorer) phase2(trace []uint8) (enabled []uint8, bad bool) {
 	var sum0 string
 	for ci, c := range cfgs {
 		e := runTrace(c, trace)
+		dg := e.digestBytes()
 		sum := e.observe()
 		if len(e.viols) > 0 {
 			report(e.viols)
@@ -1277,7 +1293,7 @@ func (x *explorer) phase2(trace []uint8) (enabled []uint8, bad bool) {
 			if e.m.base < e.m.latest {
 				r.Outcome("state:working-on-older-version")
 			}
-			r.Distinct(string(e.digestBytes()))
+			r.Distinct(string(dg))
 			var ref strings.Builder
 			if e.shCur != nil {
 				e.shCur.shape(&ref)
@@ -1320,7 +1336,12 @@ func (x *explorer) bfs(name string, seed []uint8, depth int) {
 			frontier = append(frontier, entry{append([]uint8{}, seed...), e.m.enabled()})
 		}
 	}
-	for lvl := 1; lvl <= depth && len(frontier) > 0 && nviol() == 0; lvl++ {
+	x.run(name, frontier, 1, depth)
+}
+
+// run continues the BFS of seed `name` from the given frontier for levels from..to (inclusive).
+func (x *explorer) run(name string, frontier []entry, from, to int) {
+	for lvl := from; lvl <= to && len(frontier) > 0 && nviol() == 0; lvl++ {
 		// flatten (entry, op) pairs
 		type task struct {
 			ei int
@@ -1391,6 +1412,7 @@ func (x *explorer) bfs(name string, seed []uint8, depth int) {
 		x.depthDone[name] = lvl
 		fmt.Printf("  [%s] depth %d: frontier %d, transitions so far %d, states so far %d, %.1fs\n", name, lvl, len(news), x.transitions, x.states, time.Since(t0).Seconds())
 		frontier = next
+		x.frontiers[name] = frontier
 	}
 }
 
@@ -1407,14 +1429,10 @@ func dirtyLoadFastCheck() {
 		want  map[string]string
 		where string
 	}
-	k0 := keys[0]
 	for _, c := range []tc{
 		{"fast-storage|LoadVersion-on-uncommitted-tree-keeps-unsaved-fast-nodes|Save,Set(b),LoadVersion(1)",
 			seedOf(Op{kSave, 0}, Op{kSet, 0}), func(e *Exec) error { _, err := e.tree.LoadVersion(1); return err }, map[string]string{},
 			"tm2/pkg/iavl/mutable_tree.go LoadVersion: replaces tree.ImmutableTree/lastSaved but does not reset unsavedFastNodeAdditions/unsavedFastNodeRemovals (Rollback does)"},
-		{"fast-storage|LoadVersion-on-uncommitted-tree-keeps-unsaved-fast-nodes|Set(b),Save,Remove(b),LoadVersion(1)",
-			seedOf(Op{kSet, 0}, Op{kSave, 0}, Op{kRemove, 0}), func(e *Exec) error { _, err := e.tree.LoadVersion(1); return err }, map[string]string{k0: valueFor(k0, 1)},
-			"same as above (unsaved removal survives LoadVersion)"},
 		{"fast-storage|Load-on-never-saved-tree-persists-uncommitted-keys-in-fast-index|Set(b),Load,Reopen",
 			seedOf(Op{kSet, 0}), func(e *Exec) error {
 				if _, err := e.tree.Load(); err != nil {
@@ -1537,7 +1555,7 @@ func main() {
 		alphabet = append(alphabet, Op{kDelTo, v})
 	}
 
-	x := &explorer{seen: map[[32]byte]bool{}, depthDone: map[string]int{}, census: map[string]int{}}
+	x := &explorer{seen: map[[32]byte]bool{}, depthDone: map[string]int{}, frontiers: map[string][]entry{}, census: map[string]int{}}
 	S := func(i int) Op { return Op{kSet, int64(i)} }
 	R := func(i int) Op { return Op{kRemove, int64(i)} }
 	save := Op{kSave, 0}
@@ -1550,15 +1568,16 @@ func main() {
 	if r.Quick() {
 		seeds = []seedDef{
 			{"empty", nil, 5},
-			{"six-keys-one-version", seedOf(S(0), S(1), S(2), S(3), S(4), S(5), save), 3},
+			{"six-keys-one-version", seedOf(S(0), S(1), S(2), S(3), S(4), S(5), save), 4},
 			{"three-versions", seedOf(S(0), S(1), S(2), S(3), S(4), S(5), save, R(0), R(1), save, S(0), R(5), save), 3},
+			{"three-versions-with-reference-root", seedOf(S(3), S(1), S(5), save, save, S(0), S(2), R(3), save), 3},
 		}
 	} else {
 		seeds = []seedDef{
-			{"empty", nil, 7},
-			{"six-keys-one-version", seedOf(S(0), S(1), S(2), S(3), S(4), S(5), save), 5},
+			{"empty", nil, 6},
+			{"six-keys-one-version", seedOf(S(0), S(1), S(2), S(3), S(4), S(5), save), 4},
 			{"eight-keys-one-version", seedOf(S(7), S(6), S(5), S(4), S(3), S(2), S(1), S(0), save), 4},
-			{"three-versions", seedOf(S(0), S(1), S(2), S(3), S(4), S(5), save, R(0), R(1), save, S(0), R(5), save), 5},
+			{"three-versions", seedOf(S(0), S(1), S(2), S(3), S(4), S(5), save, R(0), R(1), save, S(0), R(5), save), 4},
 			{"four-versions-with-reference-root", seedOf(S(3), S(1), S(5), save, save, S(0), S(2), save, R(3), S(7), save), 4},
 		}
 	}
@@ -1572,6 +1591,24 @@ func main() {
 		x.bfs(s.name, s.trace, s.depth)
 	}
 
+	// thorough: spend the remaining budget on one more level of the deepest seeds (budget-capped, reported as such)
+	var extra []seedDef
+	if r.Thorough() && nviol() == 0 {
+		for _, nm := range []string{"three-versions", "six-keys-one-version", "empty"} {
+			if r.Expired() {
+				break
+			}
+			d := x.depthDone[nm]
+			extra = append(extra, seedDef{nm + "(+1 level, budget permitting)", nil, d + 1})
+			x.depthDone[nm+"(+1 level, budget permitting)"] = d
+			before := x.depthDone[nm]
+			x.run(nm, x.frontiers[nm], d+1, d+1)
+			if x.depthDone[nm] > before {
+				x.depthDone[nm+"(+1 level, budget permitting)"] = d + 1
+			}
+		}
+	}
+	seeds = append(seeds, extra...)
 	dirtyLoadFastCheck()
 	zombieVersionCheck()
 
